@@ -961,9 +961,6 @@ func TestVerifC15(t *testing.T) {
 			for _, reorg := range reorgs {
 				for _, f := range fails {
 					for _, sl := range slows {
-						if !th && reorg >= 0 && (len(f) > 0 || sl.at >= 0) {
-							continue // quick: reorg events only in otherwise undisturbed scripts
-						}
 						if !r.Mine() {
 							continue
 						}
